@@ -98,9 +98,14 @@ deriving Repr, DecidableEq
 structure CheckEnv where
   /-- `GetProgram` -/
   program : List Nat → List Nat
-  /-- builds the VM environment for `(solution set, solution index, program ops)` -/
-  vmEnv : List Solution → Nat → (Nat → Option Op) → Env
+  /-- the VM environment for a program, up to the solution set and index (gas costs and limit,
+  pre- and post-state views, crypto primitives) -/
+  baseEnv : (Nat → Option Op) → Env
   fuel : Nat
+
+/-- the VM environment for `(solution set, solution index, program ops)`: `Access { solutions, index, .. }` -/
+def CheckEnv.vmEnv (ce : CheckEnv) (sols : List Solution) (solIx : Nat) (ops : Nat → Option Op) : Env :=
+  { ce.baseEnv ops with solutions := sols, index := solIx }
 
 /-- concatenating the parents' stacks and memories (`try_into` enforces the limits after every parent) -/
 def concatParents : List (Stack × Memory) → Stack → Memory → Except String (Stack × Memory)
